@@ -760,6 +760,12 @@ pub fn explore(
         if let Some(c) = res.capped {
             return Err(ExploreError::Capped(c));
         }
+        if res.choices.len() < prefix_len {
+            return Err(ExploreError::Nondeterminism(format!(
+                "the execution ended after {} choice points although a prefix of {prefix_len} was being replayed",
+                res.choices.len()
+            )));
+        }
         // does this execution belong to our share of the tree?
         let mine = match split {
             None => true,
@@ -782,7 +788,7 @@ pub fn explore(
             }
             continue;
         }
-        if stats.schedules < rerun_first || stats.schedules % 8192 == 0 {
+        if stats.schedules < rerun_first || (rerun_first > 0 && stats.schedules % 8192 == 0) {
             let (res2, loghash2) = run(&res.choices);
             stats.determinism_reruns += 1;
             if let Some(d) = &res2.divergence {
